@@ -73,6 +73,51 @@ class FoldInterp:
         self.fn = fn
         self.env = {}
         self.src = src
+        self.allowed = {c: set(range(4)) for c in CLASSES}    # rows (m, mirror m) possible on this path, per cell class
+        self.ctor = None
+        self.ret = None
+        self.path = []
+
+    def fork(self):
+        o = FoldInterp(self.fn, self.src)
+        o.env = dict(self.env)
+        o.allowed = {c: set(v) for c, v in self.allowed.items()}
+        o.ctor, o.ret, o.path = self.ctor, self.ret, list(self.path)
+        return o
+
+    def none_true(self, pred):
+        """assume the boolean array `pred` (Boo, or (Boo, class selector)) is False at every cell"""
+        b, sel = pred
+        for c in CLASSES:
+            if sel is not None and not sel.d[c][0]:
+                continue
+            bad = {i for i in range(4) if b.d[c][i]}
+            self.allowed[c] -= bad
+            # a cell of the mirror class sees this cell as its mirror: its row (ms, mm) is this cell's row (mm, ms)
+            self.allowed[MIRROR[c]] -= {(i & 1) * 2 + (i >> 1) for i in bad}
+
+    def any_pred(self, e):
+        """numpy.any(B) / B.any() / numpy.any(B[sel]) -> (B, sel) ; `not` handled by the caller"""
+        inner = None
+        if isinstance(e, ast.Call):
+            f = dotted(e.func) or ''
+            if f.split('.')[-1] == 'any' and len(e.args) == 1 and f.startswith(('numpy.', 'np.')):
+                inner = e.args[0]
+            elif isinstance(e.func, ast.Attribute) and e.func.attr == 'any' and not e.args:
+                inner = e.func.value
+        if inner is None:
+            return None
+        sel = None
+        if isinstance(inner, ast.Subscript):
+            sv = self.ev(inner.slice)
+            if not (isinstance(sv, Boo) and sv.const()):
+                return None
+            sel = sv
+            inner = inner.value
+        b = self.ev(inner)
+        if not isinstance(b, Boo):
+            return None
+        return b, sel
 
     def ev(self, e):
         if isinstance(e, ast.Name):
@@ -159,12 +204,33 @@ class FoldInterp:
         raise AnalysisError('unsupported addition')
 
     def run(self):
-        ctor = None
-        for st in self.fn.body:
+        """all paths through the function body: list of interpreters in their final state"""
+        return self.block(list(self.fn.body))
+
+    def block(self, stmts):
+        for i, st in enumerate(stmts):
             if isinstance(st, ast.Expr) and isinstance(st.value, ast.Constant):
                 continue
             if isinstance(st, ast.If) and any(isinstance(x, ast.Raise) for x in st.body):
                 continue
+            if isinstance(st, ast.If):
+                # data-dependent branch on `any(mask-valued array)`: both outcomes are explored, the False outcome under the
+                # constraint that the array is False everywhere (on the selected cell classes)
+                test, neg = st.test, False
+                if isinstance(test, ast.UnaryOp) and isinstance(test.op, ast.Not):
+                    test, neg = test.operand, True
+                pred = self.any_pred(test)
+                if pred is None:
+                    raise AnalysisError('%s: unsupported statement %s' % (self.fn.name, ast.unparse(st)[:70]))
+                out = []
+                for truth in (True, False):
+                    o = self.fork()
+                    o.path.append('%s is %s' % (ast.unparse(st.test)[:50], truth))
+                    any_value = truth != neg
+                    if not any_value:
+                        o.none_true(pred)
+                    out.extend(o.block((st.body if truth else st.orelse) + stmts[i + 1:]))
+                return out
             if isinstance(st, ast.Assign) and len(st.targets) == 1:
                 t = st.targets[0]
                 if isinstance(t, ast.Name):
@@ -173,7 +239,7 @@ class FoldInterp:
                         continue
                     v = self.ev(st.value)
                     if isinstance(v, tuple) and v[0] == 'ctor':
-                        ctor = (t.id, v[1])
+                        self.ctor = (t.id, v[1])
                     self.env[t.id] = v
                     continue
                 if isinstance(t, ast.Subscript) and isinstance(t.value, ast.Attribute) and t.value.attr == 'data' and isinstance(t.value.value, ast.Name):
@@ -186,16 +252,17 @@ class FoldInterp:
                     cur = self.env[name]
                     self.env[name] = Lin({c: ((F(0), F(0)) if cond.d[c][0] else cur.d[c]) for c in CLASSES})
                     continue
-                if isinstance(t, ast.Attribute) and isinstance(t.value, ast.Name) and ctor and t.value.id == ctor[0]:
+                if isinstance(t, ast.Attribute) and isinstance(t.value, ast.Name) and self.ctor and t.value.id == self.ctor[0]:
                     self.env['%s.%s' % (t.value.id, t.attr)] = ast.unparse(st.value)
                     continue
             if isinstance(st, ast.AugAssign) and isinstance(st.target, ast.Name) and isinstance(st.op, ast.Add):
                 self.env[st.target.id] = self.add(self.env[st.target.id], self.ev(st.value))
                 continue
             if isinstance(st, ast.Return):
-                return ctor, ast.unparse(st.value)
+                self.ret = ast.unparse(st.value)
+                return [self]
             raise AnalysisError('%s: unsupported statement %s' % (self.fn.name, ast.unparse(st)[:70]))
-        return ctor, None
+        return [self]
 
 
 def tt(fn):
@@ -209,45 +276,58 @@ def check_fold_unfold(rep, prog, m):
         rep.saw_function(rel + ':' + q)
         generic.rule_name(rep, prog, m, fn)
         generic.rule_def(rep, m, fn)
-        it = FoldInterp(fn, m)
-        ctor, ret = it.run()
-        if ctor is None:
-            raise AnalysisError('%s does not build a Spectrum' % q)
-        call = ctor[1]
-        b, problems = bind_call(prog.func(SM, 'Spectrum.__new__'), call, skip_self=True)
-        data = it.ev(b['data'])
-        mask = it.ev(b['mask'])
+        paths = FoldInterp(fn, m).run()
         short = q.split('.')[1]
-        if short == 'fold':
-            want = {'K': (F(1), F(1)), 'A': (F(1, 2), F(1, 2)), 'O': (F(0), F(0))}
-            for c, nm in (('K', 'kept'), ('A', 'ambiguous'), ('O', 'folded-out')):
-                rep.ob('R-ALG', 'fold data %s cells' % nm, data.d[c] == want[c], 'coefficients of (x, mirror x) = (%s, %s); expected (%s, %s)' % (data.d[c] + want[c]), rel, fn.lineno,
-                       what='fold data on %s cells' % nm)
-            wm = {'K': tt(lambda a, b_: a or b_), 'A': tt(lambda a, b_: a or b_), 'O': (True,) * 4}
-            for c, nm in (('K', 'kept'), ('A', 'ambiguous'), ('O', 'folded-out')):
-                rep.ob('R-ALG', 'fold mask %s cells' % nm, mask.d[c] == wm[c], 'mask truth table over (m, mirror m) = %s; expected %s' % (mask.d[c], wm[c]), rel, fn.lineno,
-                       what='fold mask on %s cells: union of the entry and its mirror (folded-out cells masked)' % nm)
-            okf = isinstance(b.get('data_folded'), ast.Constant) and b['data_folded'].value is True
-            guard = any(isinstance(s, ast.If) and ast.unparse(s.test) == 'self.folded' and any(isinstance(x, ast.Raise) for x in s.body) for s in fn.body)
-        else:
-            for c, nm in (('K', 'kept'), ('A', 'ambiguous'), ('O', 'folded-out')):
-                rep.ob('R-ALG', 'unfold data %s cells' % nm, data.d[c] == (F(1, 2), F(1, 2)), 'coefficients of (x, mirror x) = (%s, %s); expected (1/2, 1/2)' % data.d[c], rel, fn.lineno,
-                       what='unfold splits each folded count equally between the entry and its mirror')
-            # valid folded input: folded-out cells are masked.  kept: mm == True ; out: ms == True
-            kept_rows = [i for i in range(4) if T_MM[i]]
-            out_rows = [i for i in range(4) if T_MS[i]]
-            okk = all(mask.d['K'][i] == T_MS[i] for i in kept_rows)
-            oko = all(mask.d['O'][i] == T_MM[i] for i in out_rows)
-            oka = mask.d['A'] == tt(lambda a, b_: a or b_)
-            rep.ob('R-ALG', 'unfold mask kept cells', okk, 'truth table %s (rows with the mirror masked must equal m)' % (mask.d['K'],), rel, fn.lineno, what='kept entries keep their own mask')
-            rep.ob('R-ALG', 'unfold mask folded-out cells', oko, 'truth table %s (rows with the entry masked must equal mirror m)' % (mask.d['O'],), rel, fn.lineno, what='folded-out entries take the mask of their mirror')
-            rep.ob('R-ALG', 'unfold mask ambiguous cells', oka, 'truth table %s; expected m OR mirror(m)' % (mask.d['A'],), rel, fn.lineno, what='ambiguous entries are masked iff either of the pair is masked')
-            okf = isinstance(b.get('data_folded'), ast.Constant) and b['data_folded'].value is False
-            guard = any(isinstance(s, ast.If) and ast.unparse(s.test) == 'not self.folded' and any(isinstance(x, ast.Raise) for x in s.body) for s in fn.body)
-        okl = b.get('pop_ids') is not None and ast.unparse(b['pop_ids']) == 'self.pop_ids' and it.env.get('%s.extrap_x' % ctor[0]) == 'self.extrap_x' and ret == ctor[0]
-        rep.ob('R-FLOW', '%s result' % short, okf and okl and not problems, 'Spectrum(%s) ; extrap_x=%s ; returns %s' % (', '.join('%s=%s' % (k, ast.unparse(v)) for k, v in b.items()), it.env.get('%s.extrap_x' % ctor[0]), ret),
-               rel, call.lineno, what='result carries the right folding flag, labels and extrap_x')
-        rep.ob('R-DOM', '%s guard' % short, guard, 'refuses input that is already %s' % ('folded' if short == 'fold' else 'unfolded'), rel, fn.lineno, what='folding status checked first')
+        results = {}      # obligation name -> [ok, detail, what, rule]
+
+        def note(rule, name, ok, detail, what, it):
+            cur = results.setdefault((rule, name), [True, detail, what])
+            if not ok and cur[0]:
+                cur[0] = False
+                cur[1] = detail + ((' [path: %s]' % '; '.join(it.path)) if it.path else '')
+        for it in paths:
+            ctor, ret = it.ctor, it.ret
+            if ctor is None:
+                raise AnalysisError('%s does not build a Spectrum' % q)
+            call = ctor[1]
+            b, problems = bind_call(prog.func(SM, 'Spectrum.__new__'), call, skip_self=True)
+            data = it.ev(b['data'])
+            mask = it.ev(b['mask'])
+            rows = it.allowed
+
+            def same(c, table, want):
+                return all(table[i] == want[i] for i in rows[c])
+            if short == 'fold':
+                want = {'K': (F(1), F(1)), 'A': (F(1, 2), F(1, 2)), 'O': (F(0), F(0))}
+                for c, nm in (('K', 'kept'), ('A', 'ambiguous'), ('O', 'folded-out')):
+                    note('R-ALG', 'fold data %s cells' % nm, data.d[c] == want[c], 'coefficients of (x, mirror x) = (%s, %s); expected (%s, %s)' % (data.d[c] + want[c]), 'fold data on %s cells' % nm, it)
+                wm = {'K': tt(lambda a, b_: a or b_), 'A': tt(lambda a, b_: a or b_), 'O': (True,) * 4}
+                for c, nm in (('K', 'kept'), ('A', 'ambiguous'), ('O', 'folded-out')):
+                    note('R-ALG', 'fold mask %s cells' % nm, same(c, mask.d[c], wm[c]), 'mask truth table over (m, mirror m) = %s; expected %s' % (mask.d[c], wm[c]),
+                         'fold mask on %s cells: union of the entry and its mirror (folded-out cells masked)' % nm, it)
+                okf = isinstance(b.get('data_folded'), ast.Constant) and b['data_folded'].value is True
+                guard = any(isinstance(s_, ast.If) and ast.unparse(s_.test) == 'self.folded' and any(isinstance(x, ast.Raise) for x in s_.body) for s_ in fn.body)
+            else:
+                for c, nm in (('K', 'kept'), ('A', 'ambiguous'), ('O', 'folded-out')):
+                    note('R-ALG', 'unfold data %s cells' % nm, data.d[c] == (F(1, 2), F(1, 2)), 'coefficients of (x, mirror x) = (%s, %s); expected (1/2, 1/2)' % data.d[c],
+                         'unfold splits each folded count equally between the entry and its mirror', it)
+                # valid folded input: folded-out cells are masked.  kept: mm == True ; out: ms == True
+                kept_rows = [i for i in range(4) if T_MM[i] and i in rows['K']]
+                out_rows = [i for i in range(4) if T_MS[i] and i in rows['O']]
+                okk = all(mask.d['K'][i] == T_MS[i] for i in kept_rows)
+                oko = all(mask.d['O'][i] == T_MM[i] for i in out_rows)
+                oka = same('A', mask.d['A'], tt(lambda a, b_: a or b_))
+                note('R-ALG', 'unfold mask kept cells', okk, 'truth table %s (rows with the mirror masked must equal m)' % (mask.d['K'],), 'kept entries keep their own mask', it)
+                note('R-ALG', 'unfold mask folded-out cells', oko, 'truth table %s (rows with the entry masked must equal mirror m)' % (mask.d['O'],), 'folded-out entries take the mask of their mirror', it)
+                note('R-ALG', 'unfold mask ambiguous cells', oka, 'truth table %s; expected m OR mirror(m)' % (mask.d['A'],), 'ambiguous entries are masked iff either of the pair is masked', it)
+                okf = isinstance(b.get('data_folded'), ast.Constant) and b['data_folded'].value is False
+                guard = any(isinstance(s_, ast.If) and ast.unparse(s_.test) == 'not self.folded' and any(isinstance(x, ast.Raise) for x in s_.body) for s_ in fn.body)
+            okl = b.get('pop_ids') is not None and ast.unparse(b['pop_ids']) == 'self.pop_ids' and it.env.get('%s.extrap_x' % ctor[0]) == 'self.extrap_x' and ret == ctor[0]
+            note('R-FLOW', '%s result' % short, okf and okl and not problems, 'Spectrum(%s) ; extrap_x=%s ; returns %s' % (', '.join('%s=%s' % (k, ast.unparse(v)) for k, v in b.items()), it.env.get('%s.extrap_x' % ctor[0]), ret),
+                 'result carries the right folding flag, labels and extrap_x', it)
+            note('R-DOM', '%s guard' % short, guard, 'refuses input that is already %s' % ('folded' if short == 'fold' else 'unfolded'), 'folding status checked first', it)
+        for (rule, name), (ok, detail, what) in results.items():
+            rep.ob(rule, name, ok, detail + ('' if len(paths) == 1 else ' (%d paths explored)' % len(paths)), rel, fn.lineno, what=what)
     # the class predicates depend on these definitions
     for q in ('Spectrum.fold', 'Spectrum.unfold'):
         fn = prog.func(SM, q)
